@@ -12,11 +12,14 @@
                                                            points, B-spline weights and clamped indices are computed by the model from
                                                            float division / floor passed as function arguments)
      NEU act n | | X | C                                -> the same keys (C04Het.v: neu_eval / neu_eval1 / neu_wid)
-     NET k (flag <LIN|NEU|NRM|CONV|POOL|RESIZE spec> [inline params if flag = 0])*k | params | X | C
+     NET k (flag <LIN|NEU|NRM|CONV|POOL|RESIZE|RBF spec> [inline params if flag = 0])*k | params | X | C
                                                         -> OK np= rt= ft= eb= e1= [wpd=] [wid=] [wdp= wdi=] km=   (C04Het.v: hnet_set /
                                                            hnet_eval / hnet_eval1 / hnet_features / hnet_wpd / hnet_wid / hnet_wd over the layer
-                                                           kinds lin_kind, neu_kind, norm_kind, conv_kind, pool_kind, resize_kind)
-   every other model kind (monitored only, not modelled in Coq) -> SKIP *)
+                                                           kinds lin_kind, neu_kind, norm_kind, conv_kind, pool_kind, resize_kind, rbf_kind)
+     RBF nin nout tc tw g.. | params | X | C            -> OK np= rt= eb= e1= wpd=   (C04Misc.v: rbf_set_gamma / rbf_set / rbf_params / rbf_eval(_batch) / rbf_wpd)
+     CMAC nin nout tilings tiles lo hi | params | X | C -> OK np= rt= eb= e1= wpd=   (C04Misc.v: cmac_eval(_batch) / cmac_wpd)
+     ENS m (w LIN act off nin nout p..)*m | | X | C     -> OK np=0 rt= eb= e1=       (C04Misc.v: ens_eval_batch / ens_eval over LinearModel members)
+   every other model kind (KEXP; monitored only, not modelled in Coq) -> SKIP *)
 open C04_model
 
 let rec nat_of_int n = if n <= 0 then O else S (nat_of_int (n - 1))
@@ -113,6 +116,14 @@ let rec parse_kind (spec : string array) (p : int) : float lkind * (float list -
   | "RESIZE" ->
     let g = { rH = nat_of_int (i 1); rW = nat_of_int (i 2); rC = nat_of_int (i 3); roh = nat_of_int (i 4); row_ = nat_of_int (i 5) } in
     (resize_kind z fadd fmul fsub fdiv Float.neg ofnat_f floorn_f g, smooth, p + 6)
+  | "RBF" ->
+    let ni = i 1 and no = i 2 and tc = i 3 <> 0 and tw = i 4 <> 0 in
+    let gam = List.init no (fun j -> fos spec.(p + 5 + j)) in
+    let logpi = log (4.0 *. atan 1.0) in
+    let m0 = { r_nin = nat_of_int ni; r_nout = nat_of_int no; r_tc = tc; r_tw = tw;
+               r_centers = List.init no (fun _ -> List.init ni (fun _ -> 0.0)); r_gamma = []; r_logn = [] } in
+    let m0 = rbf_set_gamma fmul fsub log ofnat_f 0.5 logpi m0 gam in
+    (rbf_kind z fadd fmul fsub Float.neg exp log ofnat_f 0.5 logpi m0, smooth, p + 5 + no)
   | _ -> raise Not_modelled
 (* NET k (flag <spec> [inline parameters if flag = 0])*k *)
 let parse_net (spec : string array) : float hnet * (float list -> float list list -> float) list =
@@ -254,6 +265,49 @@ let () =
               let km = if i 1 = 1 then rect_margin x else infinity in
               Printf.sprintf "OK np=0 rt= eb=%s e1=%s wpd= wid=%s wdp= wdi=%s km=%s" (csv (List.concat eb)) (csv (List.concat e1))
                 (csv (List.concat wid)) (csv (List.concat wid)) (pf km)
+            | "RBF" ->
+              let ni = i 1 and no = i 2 and tc = i 3 <> 0 and tw = i 4 <> 0 in
+              let gam = List.init no (fun j -> fos spec.(5 + j)) in
+              let half = 0.5 and logpi = log (4.0 *. atan 1.0) in
+              let m0 = { r_nin = nat_of_int ni; r_nout = nat_of_int no; r_tc = tc; r_tw = tw;
+                         r_centers = List.init no (fun _ -> List.init ni (fun _ -> 0.0)); r_gamma = []; r_logn = [] } in
+              let m0 = rbf_set_gamma fmul fsub log ofnat_f half logpi m0 gam in
+              let m = rbf_set fmul fsub exp log ofnat_f half logpi m0 params in
+              let cs = List.map fos (toks seg.(3)) in
+              let c = if no = 0 then List.init b (fun _ -> []) else chunks no cs in
+              let eb = rbf_eval_batch z fadd fmul fsub Float.neg exp m x in
+              let e1 = List.map (rbf_eval z fadd fmul fsub Float.neg exp m) x in
+              let wpd = rbf_wpd z fadd fmul fsub Float.neg exp ofnat_f half m x c in
+              Printf.sprintf "OK np=%d rt=%s eb=%s e1=%s wpd=%s" (int_of_nat (rbf_nparams m)) (csv (rbf_params log m))
+                (csv (List.concat eb)) (csv (List.concat e1)) (csv wpd)
+            | "CMAC" ->
+              let g = { c_nin = nat_of_int (i 1); c_nout = nat_of_int (i 2); c_tilings = nat_of_int (i 3); c_tiles = nat_of_int (i 4);
+                        c_lower = fos spec.(5); c_upper = fos spec.(6) } in
+              let no = i 2 in
+              let cs = List.map fos (toks seg.(3)) in
+              let c = if no = 0 then List.init b (fun _ -> []) else chunks no cs in
+              let trunc v = nat_of_int (int_of_float v) in
+              let eb = cmac_eval_batch z fadd fmul fsub fdiv ofnat_f 0.5 trunc 1.0 g params x in
+              let e1 = List.map (cmac_eval z fadd fmul fsub fdiv ofnat_f 0.5 trunc 1.0 g params) x in
+              let wpd = cmac_wpd z fadd fmul fsub fdiv ofnat_f 0.5 trunc 1.0 g x c in
+              Printf.sprintf "OK np=%d rt=%s eb=%s e1=%s wpd=%s" (int_of_nat (cmac_nparams g)) (csv params)
+                (csv (List.concat eb)) (csv (List.concat e1)) (csv wpd)
+            | "ENS" ->
+              let nm = i 1 in
+              let pos = ref 2 and members = ref [] and no = ref 0 in
+              for _ = 1 to nm do
+                let w = fos spec.(!pos) in
+                if spec.(!pos + 1) <> "LIN" then failwith "ENS member";
+                let off = int_of_string spec.(!pos + 3) <> 0 and ni = int_of_string spec.(!pos + 4) and nout = int_of_string spec.(!pos + 5) in
+                let np = int_of_nat (lin_nparams (nat_of_int ni) (nat_of_int nout) off) in
+                let par = List.init np (fun j -> fos spec.(!pos + 6 + j)) in
+                let ly = lin_set (nat_of_int ni) (nat_of_int nout) off id_act par in
+                members := (w, (fun xs -> lin_eval_batch z fadd fmul ly xs)) :: !members; no := nout; pos := !pos + 6 + np
+              done;
+              let members = List.rev !members in
+              let eb = ens_eval_batch z fadd fmul fdiv (nat_of_int !no) members x in
+              let e1 = List.map (ens_eval z fadd fmul fdiv (nat_of_int !no) members) x in
+              Printf.sprintf "OK np=0 rt= eb=%s e1=%s" (csv (List.concat eb)) (csv (List.concat e1))
             | "POOL" ->
               let g = { pH = nat_of_int (i 1); pW = nat_of_int (i 2); pC = nat_of_int (i 3); pph = nat_of_int (i 4); ppw = nat_of_int (i 5) } in
               let no = int_of_nat (pool_nout g) in
